@@ -136,6 +136,110 @@ def reaching_defs(fn: FunctionInfo) -> ReachingDefs:
     return r
 
 
+_DOMT: Dict[Tuple[int, int], List[Tuple[Node, bool]]] = {}
+
+
+def dominating_tests(fn: FunctionInfo, node: Node) -> List[Tuple[Node, bool]]:
+    """(test node, outcome) pairs every path from the entry to *node* has to take -- on the raw CFG, every potentially
+    raising node allowed to raise (more paths, hence fewer dominators: conservative)."""
+    key = (id(fn), id(node))
+    if key in _DOMT:
+        return _DOMT[key]
+    g = reaching_defs(fn).cfg
+    out: List[Tuple[Node, bool]] = []
+    reach0 = g.reachable([g.entry])
+    if node in reach0:
+        for t in g.nodes:
+            if t.kind != "test" or t not in reach0:
+                continue
+            for lbl in (True, False):
+                # must the edge (t, lbl) be taken?  <=> node unreachable once that edge is cut
+                r = g.reachable([g.entry], edge_filter=lambda a, b, l, t=t, lbl=lbl: not (a is t and l is lbl))
+                if node not in r:
+                    out.append((t, lbl))
+    _DOMT[key] = out
+    return out
+
+
+def _none_guard(test: ast.expr, truth: bool):
+    """(name, 'none' | 'notnone') when the test outcome fixes a local's None-ness"""
+    e = test
+    if isinstance(e, ast.Compare) and len(e.ops) == 1 and isinstance(e.left, ast.Name) and isinstance(e.comparators[0], ast.Constant) \
+            and e.comparators[0].value is None and isinstance(e.ops[0], (ast.Is, ast.IsNot, ast.Eq, ast.NotEq)):
+        is_none = isinstance(e.ops[0], (ast.Is, ast.Eq)) == truth
+        return e.left.id, ("none" if is_none else "notnone")
+    if isinstance(e, ast.Name) and truth:
+        return e.id, "notnone"
+    return None
+
+
+def _prune_correlated(fn: FunctionInfo, rd: "ReachingDefs", defs: List[Def], at: Node) -> List[Def]:
+    """Drop definitions that cannot be the live one at *at* because a sibling variable assigned together with them
+    (`item, tree = value, None` in one branch, `item, tree = make(), value` in the other) contradicts a test every
+    path to *at* has passed (`tree is not None`)."""
+    if len(defs) < 2:
+        return defs
+    facts = {}
+    for t, lbl in dominating_tests(fn, at):
+        ng = _none_guard(t.ast, lbl)
+        if ng is not None:
+            facts[ng[0]] = (ng[1], t)
+    # flag facts: `if is_field: x = a` ... `if not is_field: use(x)` -- the definition made under the flag's True edge
+    # is dead where the same (unchanged) flag is known to be False
+    flag_facts = {}
+    for t, lbl in dominating_tests(fn, at):
+        if isinstance(t.ast, ast.Name):
+            ds = frozenset(id(x) for x in rd.reaching(t, t.ast.id))
+            if ds:
+                flag_facts[(t.ast.id, ds)] = lbl
+    if flag_facts:
+        kept = []
+        for d in defs:
+            dead = False
+            if d.node is not None:
+                for t2, lbl2 in dominating_tests(fn, d.node):
+                    if isinstance(t2.ast, ast.Name):
+                        k2 = (t2.ast.id, frozenset(id(x) for x in rd.reaching(t2, t2.ast.id)))
+                        if k2 in flag_facts and flag_facts[k2] is not lbl2:
+                            dead = True
+            if not dead:
+                kept.append(d)
+        defs = kept or defs
+    if not facts:
+        return defs
+    keep = []
+    for d in defs:
+        drop = False
+        if d.node is not None:
+            for yname, (fact, t) in facts.items():
+                if yname == d.name:
+                    continue
+                # the definition of y in force right after d.node
+                ys = [e for e in rd.defs_at.get(d.node, []) if e.name == yname] or [e for e in rd.reaching(d.node, yname)]
+                if len(ys) != 1:
+                    continue
+                e = ys[0]
+                # ... must still be the one tested (no other definition of y in between on any path)
+                at_test = rd.reaching(t, yname)
+                if not any(x is e for x in at_test):
+                    continue
+                val = e.value
+                if e.kind == "unpack" and isinstance(val, (ast.Tuple, ast.List)) and e.index is not None and e.index < len(val.elts):
+                    val = val.elts[e.index]
+                elif e.kind != "assign":
+                    continue
+                if fact == "notnone" and isinstance(val, ast.Constant) and val.value is None:
+                    # only sound if every y-definition that reaches the test and is None is excluded the same way: it is,
+                    # this d is simply not live when y was assigned None here
+                    drop = True
+                if fact == "none" and (isinstance(val, (ast.List, ast.Dict, ast.Tuple, ast.Set, ast.JoinedStr)) or
+                                       (isinstance(val, ast.Constant) and val.value is not None)):
+                    drop = True
+        if not drop:
+            keep.append(d)
+    return keep or defs
+
+
 def value_sources(fn: FunctionInfo, expr: ast.expr, at: Optional[Node] = None, _depth=0,
                   _seen=None) -> List[Tuple[str, object]]:
     """Leaves of the def-use closure of *expr*: what the value may come from.
@@ -172,6 +276,8 @@ def value_sources(fn: FunctionInfo, expr: ast.expr, at: Optional[Node] = None, _
         # comprehension-local names etc.
         return [("unknown", expr.id)]
     defs = rd.reaching(at, expr.id)
+    if len(defs) > 1:
+        defs = _prune_correlated(fn, rd, defs, at)
     if not defs:
         # closure variable or global
         if fn.parent is not None:
